@@ -1,0 +1,18 @@
+//go:build !verif
+
+// Package verifhook holds instrumentation points used by the external
+// verification harness. Without the build tag "verif" every hook is an empty
+// function.
+package verifhook
+
+// Gate is a point where a harness may block the calling goroutine.
+func Gate(pt string) {}
+
+// Note records that a point was passed.
+func Note(pt string, s string, n int) {}
+
+// Crash is a point where a harness may kill the process.
+func Crash(pt string) {}
+
+// Yield is a point where a harness may perturb the schedule.
+func Yield(pt string) {}
